@@ -258,6 +258,7 @@ func Open(path string, mode os.FileMode, options *Options) (db *DB, err error) {
 
 	// Default values for test hooks
 	db.ops.writeAt = db.file.WriteAt
+	verifWrapOps(db)
 
 	if db.pageSize = options.PageSize; db.pageSize == 0 {
 		// Set the default page size to the OS page size.
@@ -422,6 +423,7 @@ func (db *DB) getPageSizeFromSecondMeta() (int, bool, error) {
 func (db *DB) loadFreelist() {
 	db.freelistLoad.Do(func() {
 		db.freelist = newFreelist(db.FreelistType)
+		db.freelist = verifObserveFreelist(db, db.freelist)
 		if !db.hasSyncedFreelist() {
 			// Reconstruct free list by scanning the DB.
 			db.freelist.Init(db.freepages())
@@ -454,6 +456,7 @@ func (db *DB) fileSize() (int, error) {
 // mmap opens the underlying memory-mapped file and initializes the meta references.
 // minsz is the minimum size that the new mmap can be.
 func (db *DB) mmap(minsz int) (err error) {
+	verifLock(db, verifMmapLock, true)
 	db.mmaplock.Lock()
 	defer db.mmaplock.Unlock()
 
@@ -513,6 +516,9 @@ func (db *DB) mmap(minsz int) (err error) {
 	// Memory-map the data file as a byte slice.
 	// gofail: var mapError string
 	// return errors.New(mapError)
+	if err = verifIO(db, "mmap", int64(size)); err != nil {
+		return err
+	}
 	if err = mmap(db, size); err != nil {
 		lg.Errorf("[GOOS: %s, GOARCH: %s] mmap failed, size: %d, error: %v", runtime.GOOS, runtime.GOARCH, size, err)
 		return err
@@ -567,6 +573,9 @@ func (db *DB) munmap() error {
 
 	// gofail: var unmapError string
 	// return errors.New(unmapError)
+	if err := verifIO(db, "munmap", 0); err != nil {
+		return fmt.Errorf("unmap error: %w", err)
+	}
 	if err := munmap(db); err != nil {
 		db.Logger().Errorf("[GOOS: %s, GOARCH: %s] munmap failed, db.datasz: %d, error: %v", runtime.GOOS, runtime.GOARCH, db.datasz, err)
 		return fmt.Errorf("unmap error: %w", err)
@@ -615,6 +624,9 @@ func (db *DB) mmapSize(size int) (int, error) {
 func (db *DB) munlock(fileSize int) error {
 	// gofail: var munlockError string
 	// return errors.New(munlockError)
+	if err := verifIO(db, "munlock", int64(fileSize)); err != nil {
+		return fmt.Errorf("munlock error: %w", err)
+	}
 	if err := munlock(db, fileSize); err != nil {
 		db.Logger().Errorf("[GOOS: %s, GOARCH: %s] munlock failed, fileSize: %d, db.datasz: %d, error: %v", runtime.GOOS, runtime.GOARCH, fileSize, db.datasz, err)
 		return fmt.Errorf("munlock error: %w", err)
@@ -625,6 +637,9 @@ func (db *DB) munlock(fileSize int) error {
 func (db *DB) mlock(fileSize int) error {
 	// gofail: var mlockError string
 	// return errors.New(mlockError)
+	if err := verifIO(db, "mlock", int64(fileSize)); err != nil {
+		return fmt.Errorf("mlock error: %w", err)
+	}
 	if err := mlock(db, fileSize); err != nil {
 		db.Logger().Errorf("[GOOS: %s, GOARCH: %s] mlock failed, fileSize: %d, db.datasz: %d, error: %v", runtime.GOOS, runtime.GOARCH, fileSize, db.datasz, err)
 		return fmt.Errorf("mlock error: %w", err)
@@ -692,12 +707,15 @@ func (db *DB) init() error {
 // It will block waiting for any open transactions to finish
 // before closing the database and returning.
 func (db *DB) Close() error {
+	verifLock(db, verifRWLock, true)
 	db.rwlock.Lock()
 	defer db.rwlock.Unlock()
 
+	verifLock(db, verifMetaLock, true)
 	db.metalock.Lock()
 	defer db.metalock.Unlock()
 
+	verifLock(db, verifMmapLock, true)
 	db.mmaplock.Lock()
 	defer db.mmaplock.Unlock()
 
@@ -793,11 +811,13 @@ func (db *DB) beginTx() (*Tx, error) {
 	// Lock the meta pages while we initialize the transaction. We obtain
 	// the meta lock before the mmap lock because that's the order that the
 	// write transaction will obtain them.
+	verifLock(db, verifMetaLock, true)
 	db.metalock.Lock()
 
 	// Obtain a read-only lock on the mmap. When the mmap is remapped it will
 	// obtain a write lock so all transactions must finish before it can be
 	// remapped.
+	verifLock(db, verifMmapLock, false)
 	db.mmaplock.RLock()
 
 	// Exit if the database is not open yet.
@@ -824,6 +844,7 @@ func (db *DB) beginTx() (*Tx, error) {
 
 	// Unlock the meta pages.
 	db.metalock.Unlock()
+	verifYield(db, "beginTx.registered")
 
 	// Update the transaction stats.
 	if db.stats != nil {
@@ -844,10 +865,12 @@ func (db *DB) beginRWTx() (*Tx, error) {
 
 	// Obtain writer lock. This is released by the transaction when it closes.
 	// This enforces only one writer transaction at a time.
+	verifLock(db, verifRWLock, true)
 	db.rwlock.Lock()
 
 	// Once we have the writer lock then we can lock the meta pages so that
 	// we can set up the transaction.
+	verifLock(db, verifMetaLock, true)
 	db.metalock.Lock()
 	defer db.metalock.Unlock()
 
@@ -877,6 +900,7 @@ func (db *DB) removeTx(tx *Tx) {
 	db.mmaplock.RUnlock()
 
 	// Use the meta lock to restrict access to the DB object.
+	verifLock(db, verifMetaLock, true)
 	db.metalock.Lock()
 
 	if db.freelist != nil {
@@ -907,6 +931,7 @@ func (db *DB) Update(fn func(*Tx) error) error {
 	if err != nil {
 		return err
 	}
+	verifYield(db, "Update.begun")
 
 	// Make sure the transaction rolls back in the event of a panic.
 	defer func() {
@@ -938,6 +963,7 @@ func (db *DB) View(fn func(*Tx) error) error {
 	if err != nil {
 		return err
 	}
+	verifYield(db, "View.begun")
 
 	// Make sure the transaction rolls back in the event of a panic.
 	defer func() {
@@ -986,6 +1012,7 @@ func (db *DB) Batch(fn func(*Tx) error) error {
 		db.batch = &batch{
 			db: db,
 		}
+		verifBatchNew(db.batch)
 		db.batch.timer = time.AfterFunc(db.MaxBatchDelay, db.batch.trigger)
 	}
 	db.batch.calls = append(db.batch.calls, call{fn: fn, err: errCh})
@@ -994,6 +1021,7 @@ func (db *DB) Batch(fn func(*Tx) error) error {
 		go db.batch.trigger()
 	}
 	db.batchMu.Unlock()
+	verifYield(db, "Batch.queued")
 
 	err := <-errCh
 	if err == trySolo {
@@ -1016,7 +1044,9 @@ type batch struct {
 
 // trigger runs the batch if it hasn't already been run.
 func (b *batch) trigger() {
+	verifOnceEnter(b)
 	b.start.Do(b.run)
+	verifOnceExit(b)
 }
 
 // run performs the transactions in the batch and communicates results
@@ -1033,6 +1063,7 @@ func (b *batch) run() {
 
 retry:
 	for len(b.calls) > 0 {
+		verifYield(b.db, "batch.run.attempt")
 		var failIdx = -1
 		err := b.db.Update(func(tx *Tx) error {
 			for i, c := range b.calls {
@@ -1240,10 +1271,16 @@ func (db *DB) grow(sz int) error {
 		if runtime.GOOS != "windows" {
 			// gofail: var resizeFileError string
 			// return errors.New(resizeFileError)
+			if err := verifIO(db, "truncate", int64(sz)); err != nil {
+				return fmt.Errorf("file resize error: %s", err)
+			}
 			if err := db.file.Truncate(int64(sz)); err != nil {
 				lg.Errorf("[GOOS: %s, GOARCH: %s] truncating file failed, size: %d, db.datasz: %d, error: %v", runtime.GOOS, runtime.GOARCH, sz, db.datasz, err)
 				return fmt.Errorf("file resize error: %s", err)
 			}
+		}
+		if err := verifIO(db, "fsync", 0); err != nil {
+			return fmt.Errorf("file sync error: %s", err)
 		}
 		if err := db.file.Sync(); err != nil {
 			lg.Errorf("[GOOS: %s, GOARCH: %s] syncing file failed, db.datasz: %d, error: %v", runtime.GOOS, runtime.GOARCH, db.datasz, err)
